@@ -58,7 +58,8 @@ ASSUMPTIONS = [
     "machine: overlay/underlay/prepend are judged with the Series.overlay/underlay docstring algorithm; where a series is untrimmed after clip() the documented 'first to last available observation' span and the stored start..end span differ and either result is accepted; when either side has no observation the item may also stay unchanged (Databox._lay skips series of unknown frequency)",
     "machine: operations whose outcome is undocumented are skipped and counted under skipped_* labels: overlay/underlay names pointing at non-series items, the same name holding different frequencies or kinds in the two boxes, variant counts that cannot broadcast (k vs 1 only), rename onto an existing name or with duplicate targets (the implementation pops and assigns sequentially, so a swap loses an item - observed, not asserted), source/target lists of different lengths, clip with start > end",
     "machine: merge is always given a deep copy of the other box (merge stores the other box's objects without copying; aliasing after merge is undocumented), after first replacing the other box by its own copy(); descriptions of stacked series are not judged; after 'error'/'critical' only the raise is asserted (on a throwaway copy)",
-    "machine: the order of names inside a databox is not judged",
+    "machine: the order of names inside a databox is not judged; the return value of keep(None) is not judged (keep documents list / name / callable only)",
+    "descriptions of series left without any observation are not judged (Series.trim() resets an all-missing series, description included) - machine lay steps and dataslate results",
     "machine: strict_names=True with an absent name must raise (any exception); the state after the raise is not judged (the call is made on a throwaway copy)",
 ]
 
@@ -1028,7 +1029,7 @@ class _Machine:
     def run(self, k, op):
         name = op["op"]
         t = op.get("t", 0)
-        where = (name, f"step {k} {op}", t)
+        where = (name, f"step {k} {op}", 1 - t if name in ("copy", "shallow") else t)   # [2]: the box the step writes to
         snap = self.snapshot()
         mutated = getattr(self, "do_" + name)(op, where)
         if mutated is None:
@@ -1385,12 +1386,24 @@ def _bucket_matcher(*needles):
     return match
 
 
+def _has_overlapping_copy(case):
+    """Some copy step names a target that is also one of its sources at another position."""
+    for op in case.get("ops", []):
+        if op["op"] == "copy" and op["src"] is not None and op["tgt"] is not None \
+                and op["src"][0] in ("list", "tuple") and op["tgt"][0] == "list":
+            src, tgt = op["src"][1], op["tgt"][1]
+            if any(t_ in src and (i >= len(src) or src[i] != t_) for i, t_ in enumerate(tgt)):
+                return True
+    return False
+
+
 FINDING_MATCHERS = {
     "csv_noncomma_delimiter": _bucket_matcher(":noncomma_delimiter"),
     "csv_frequency_option": _bucket_matcher(":frequency_option"),
     "lay_mutates_other": lambda sub, case, bucket, message: (
         sub == "machine" and bucket.endswith(":other_box_item") and "number of variants" in message),
-    "copy_overlapping_targets": lambda sub, case, bucket, message: sub == "machine" and bucket.startswith("machine:copy:"),
+    "copy_overlapping_targets": lambda sub, case, bucket, message: (
+        sub == "machine" and bucket.startswith("machine:copy:") and _has_overlapping_copy(case)),
     "keep_strict": _bucket_matcher("machine:keep:strict_missing_not_raised"),
 }
 
